@@ -1423,11 +1423,40 @@ def config_allows(config_name, perm, name):
     return config_name == "public" and not name.startswith("_")
 
 
-def is_policy_denial(ex):
-    """refused by the connection's configuration: the attribute policy, or `allow_pickle` being off"""
-    if type(ex).__name__ == "ValueError" and bool(ex.args) and ex.args[0] == "pickling is disabled":
+def merged_config(config_name):
+    from rpyc.core.protocol import DEFAULT_CONFIG
+    cfg = dict(DEFAULT_CONFIG)
+    cfg.update(config_dict(config_name))
+    return cfg
+
+
+def policy_allows(config_name, perm, name, obj=None):
+    """the attribute policy as DEFAULT_CONFIG documents it (kind of access, the four name rules, the `exposed_` namesake)"""
+    cfg = merged_config(config_name)
+    if not cfg[{"get": "allow_getattr", "set": "allow_setattr", "del": "allow_delattr"}[perm]]:
+        return False
+    prefix = cfg["allow_exposed_attrs"] and cfg["exposed_prefix"]
+    plain = cfg["allow_all_attrs"] or bool(prefix and name.startswith(prefix)) or (cfg["allow_safe_attrs"] and name in cfg["safe_attrs"]) \
+        or (cfg["allow_public_attrs"] and not name.startswith("_"))
+    return bool(plain or (prefix and obj is not None and safe_hasattr(obj, prefix + name)))
+
+
+def is_policy_denial(ex, config_name=None, perm=None, name=None, obj=None, pickling=False):
+    """was this exception the connection's configuration refusing the operation?  Decided from the configuration and the
+    exception's CLASS (AttributeError for the attribute policy, ValueError for `allow_pickle`), never from message texts:
+    with the accessed name known, a refusal is an AttributeError for a name the documented policy does not allow; without
+    it, any AttributeError under a configuration that refuses something"""
+    cls = type(ex).__name__
+    if cls == "ValueError":
+        return bool(pickling) and config_name is not None and not merged_config(config_name)["allow_pickle"]
+    if cls != "AttributeError":
+        return False
+    if config_name is None:
         return True
-    return type(ex).__name__ == "AttributeError" and bool(ex.args) and type(ex.args[0]) is str and ex.args[0].startswith("cannot access")
+    if perm is None or type(name) is not str:
+        cfg = merged_config(config_name)
+        return not (cfg["allow_all_attrs"] and cfg["allow_getattr"] and cfg["allow_setattr"] and cfg["allow_delattr"])
+    return not policy_allows(config_name, perm, name, obj)
 
 
 def outcome(fn):
@@ -1566,7 +1595,7 @@ def run_sequence(kind, config_name, seed, seq, ops, stop_at_first=True, skip_sig
             if spec.label == "buffiter":
                 chunk, maxchunk, factor = [o.for_twin for o in operands]
                 got_p, ex_p = run_buffiter(tw.proxy, chunk, maxchunk, factor)
-                denied = ex_p is not None and is_policy_denial(ex_p)
+                denied = ex_p is not None and kind != "hooked" and is_policy_denial(ex_p, config_name, "get", "__iter__", tw.twin)
                 integer = all(type(x) is int for x in (chunk, maxchunk, factor))
                 label = "buffiter:%s" % ("valid" if integer and factor >= 1 and chunk >= 1 and maxchunk >= 1 else "refused" if integer else "non-integer")
                 if denied:
@@ -1587,6 +1616,13 @@ def run_sequence(kind, config_name, seed, seq, ops, stop_at_first=True, skip_sig
                     if kind in ("list", "generator", "deque", "set", "dict", "bytearray") and (ex_t is None or type(ex_t).__name__ == "ValueError"):
                         tw.buff_records.append((chunk, maxchunk, factor, len(got_t), type(ex_t).__name__ if ex_t is not None else None,
                                                 ("ok", len(got_p), type(ex_p).__name__ if ex_p is not None else None)))
+                elif integer and ex_p is None:
+                    # parameters below 1 accepted after all (clamped): then every item must arrive, as in plain iteration
+                    got_t, ex_t = plain_iter(tw.twin)
+                    res_p = ("ok", [tw.describe(x, True) for x in got_p])
+                    res_t = ("ok", [tw.describe(x, False) for x in got_t]) if ex_t is None else ("exc", type(ex_t).__name__)
+                    tw.observations["buffiter with a parameter below 1 iterated instead of refusing (acceptable if complete)"] += 1
+                    tw.buff_records.append((chunk, maxchunk, factor, 0, None, ("err", None)))
                 elif integer:
                     # refused parameters: ValueError before anything is delivered or consumed (the twin is not touched)
                     res_t = ("exc", "ValueError")
@@ -1609,7 +1645,11 @@ def run_sequence(kind, config_name, seed, seq, ops, stop_at_first=True, skip_sig
                         stop_after = True      # the target may have been advanced by that chunk: the twin cannot follow
             else:
                 (kind_p, val_p), ex_p = outcome(lambda: fn(tw.proxy, *[o.for_proxy for o in operands]))
-                denied = ex_p is not None and is_policy_denial(ex_p)
+                one = names[0] if names is not None and len(names) == 1 and type(names[0][1]) is str else (None, None)
+                hooks_answer = kind == "hooked" and not label.startswith("cmp:")     # its own hooks decide, and they delegate
+                denied = ex_p is not None and not hooks_answer and is_policy_denial(
+                    ex_p, config_name, one[0], one[1], type(tw.twin) if label.startswith("cmp:") else tw.twin,
+                    pickling=spec.label in ("copy", "pickle"))
                 if denied:
                     res_p, res_t = ("exc", "AttributeError"), None
                 else:
@@ -1739,7 +1779,7 @@ def class_instance_case(cls_name, order, config_name):
         ]
         for label, fn in checks:
             (kp, valp), exp = outcome(lambda: fn(Kp, vp))
-            if exp is not None and is_policy_denial(exp):
+            if exp is not None and is_policy_denial(exp, config_name):
                 steps.append((label, "refused by the configuration", None))
                 continue
             (kt, valt), ext = outcome(lambda: fn(K, v2))
@@ -1803,6 +1843,7 @@ COMPARISON_PAIRS = {
     "Hooked == value": (lambda: Hooked(3), lambda: 3),
     "Hooked == Vec (neither knows the other)": (lambda: Hooked(3), lambda: Vec([3])),
 }
+CMP_NAMES = [("==", "eq"), ("!=", "ne"), ("<", "lt"), ("<=", "le"), (">", "gt"), (">=", "ge")]
 CMP_FUNCS = [("==", operator.eq), ("!=", operator.ne), ("<", operator.lt), ("<=", operator.le), (">", operator.gt), (">=", operator.ge)]
 
 
@@ -1820,7 +1861,8 @@ def comparison_case(name, config_name):
         pr = far_r if brine.dumpable(far_r) else sess.lend(far_r)
         for sym, f in CMP_FUNCS:
             (kp, vp), exp = outcome(lambda: f(pl, pr))
-            if exp is not None and is_policy_denial(exp):
+            sym_name = "__%s__" % dict(CMP_NAMES)[sym]
+            if exp is not None and is_policy_denial(exp, config_name, "get", sym_name, type(tw_l)):
                 steps.append((sym, "refused by the configuration", None))
                 continue
             (kt, vt), ext = outcome(lambda: f(tw_l, tw_r))
@@ -1851,7 +1893,7 @@ def exception_class_case():
         try:
             p = sess.lend(Raiser())
             (k, v), ex = outcome(lambda: p.fail(1, "x"))
-            if ex is not None and is_policy_denial(ex):
+            if ex is not None and is_policy_denial(ex, config_name, "get", "fail", None):
                 # `fail` is not readable under the default configuration: call through a callable handed over instead
                 f = sess.lend(Raiser().fail)
                 (k, v), ex = outcome(lambda: f(1, "x"))
@@ -1931,7 +1973,7 @@ def keyword_names_case(config_name):
         for name in keyword_names():
             for label, fn in ways:
                 (kp, vp), exp = outcome(lambda: fn(prox, name))
-                if exp is not None and is_policy_denial(exp):
+                if exp is not None and is_policy_denial(exp, config_name):
                     steps.append((label % name, "refused by the configuration", None))
                     continue
                 (kt, vt), ext = outcome(lambda: fn(twin, name))
@@ -2058,7 +2100,7 @@ def instancecheck_case(which, config_name):
         for text, x, cls, tag in qs:
             xp, xt = (prox[x], far[x]) if type(x) is str and x in far else (x, x)
             (kp, vp), exp = outcome(lambda: isinstance(xp, prox[cls]))
-            if exp is not None and is_policy_denial(exp):
+            if exp is not None and is_policy_denial(exp, config_name):
                 steps.append((text, "refused by the configuration", None))
                 continue
             (kt, vt), ext = outcome(lambda: isinstance(xt, far[cls]))
@@ -2074,7 +2116,7 @@ def instancecheck_case(which, config_name):
         (kp, vp), exp = outcome(lambda: issubclass(prox["Derived"], prox["Base"]))
         (kt, vt), ext = outcome(lambda: issubclass(far["Derived"], far["Base"]))
         steps.append(("issubclass(Derived, Base)", str((kp, vp)), str((kt, vt))))
-        if (kp, vp) != (kt, vt) and not (exp is not None and is_policy_denial(exp)):
+        if (kp, vp) != (kt, vt) and not (exp is not None and is_policy_denial(exp, config_name)):
             problems.append((len(steps) - 1, "issubclass(Derived, Base)", "through the proxies %r, directly %r" % ((kp, vp), (kt, vt)), "twin:instancecheck"))
         if not sess.usable():
             problems.append((len(steps), "end", "the connection is not usable afterwards", "twin:instancecheck"))
@@ -2104,7 +2146,7 @@ def with_no_exit_case(config_name):
         (kt, vt), ext = outcome(lambda: block(twin, twin.log))
         rp, rt = (kp, vp, list(far.log)), (kt, vt, list(twin.log))
         steps.append(("with target-with-__enter__-only: pass", str(rp), str(rt)))
-        if rp != rt and not (exp is not None and is_policy_denial(exp)):
+        if rp != rt and not (exp is not None and is_policy_denial(exp, config_name, "get", "__exit__", twin)):
             sig = SIG_WITH_NO_EXIT if rp == ("exc", "AttributeError", ["enter", "body"]) and rt == ("exc", "TypeError", []) else "twin:with-no-exit"
             problems.append((0, "with proxy", "through the proxy %r, directly %r (outcome, exception class, what ran on the target)" % (rp, rt), sig))
         if not sess.usable():
@@ -2351,7 +2393,7 @@ def correspondence(ctx):
     except Exception as ex:  # noqa
         grid = []
         c.disagreements.append(dict(case=dict(buffiter="grid"), op="buffiter", impl="the grid could not run: %s" % type(ex).__name__, model="-"))
-    for (chunk, maxchunk, factor, n, term, got) in grid:
+    for (chunk, maxchunk, factor, n, term, got, _complete) in grid:
         key = (chunk, maxchunk, factor, n, term)
         if key not in buff_keys:
             buff_keys[key] = (chunk, maxchunk, factor, n, term, got)
@@ -2461,7 +2503,8 @@ def grid_buffiter():
                             res = ("ok", len(got), type(ex).__name__ if ex is not None else None)
                         else:
                             res = ("err", type(ex).__name__ if ex is not None else None) if not got else ("err", "items delivered before the refusal")
-                        out.append((chunk, maxchunk, factor, total, term, res))
+                        complete = ex is None and len(got) == total
+                        out.append((chunk, maxchunk, factor, total, term, res, complete))
     finally:
         sess.close()
     return out
@@ -2488,12 +2531,13 @@ def boundary_sequences(ops):
 
 def buffiter_oracle():
     """the statement on the real code alone: for chunk>=1, max_chunk>=1, integer factor>=1 every item arrives; other
-    integer parameters are refused with ValueError before anything is delivered"""
+    integer parameters are either refused with ValueError before anything is delivered or - an implementation that clamps
+    them - iterated completely: what must not happen is a silent end before the last item"""
     try:
         grid = grid_buffiter()
     except Exception:  # noqa
         return None
-    for (chunk, maxchunk, factor, n, term, res) in grid:
+    for (chunk, maxchunk, factor, n, term, res, complete) in grid:
         if term is not None:
             continue
         if factor >= 1 and chunk >= 1 and maxchunk >= 1:
@@ -2501,9 +2545,9 @@ def buffiter_oracle():
                 return dict(kind="input", buffiter=dict(chunk=chunk, max_chunk=maxchunk, factor=factor, items=n)), \
                     "buffiter(proxy of list(range(%d)), chunk=%d, max_chunk=%d, factor=%d) delivered %r instead of all %d items" % (
                         n, chunk, maxchunk, factor, res, n), "buffiter-truncates"
-        elif res != ("err", "ValueError"):
+        elif res != ("err", "ValueError") and not complete:
             return dict(kind="input", buffiter=dict(chunk=chunk, max_chunk=maxchunk, factor=factor, items=n)), \
-                "buffiter(proxy of list(range(%d)), chunk=%d, max_chunk=%d, factor=%d): %r instead of ValueError" % (
+                "buffiter(proxy of list(range(%d)), chunk=%d, max_chunk=%d, factor=%d): %r - neither refused with ValueError nor every item delivered" % (
                     n, chunk, maxchunk, factor, res), "buffiter-truncates"
     return None
 
